@@ -18,10 +18,11 @@ func TestMain(m *testing.M) {
 			"usage and buffer notifications (so queues and UR-SEQN counters are populated), re-association, SEID-0 answers also from wrong peers, takeover (Modification carrying a Node ID); "+
 			"oracle = frame condition: before/after every message the server snapshot (rules, URR counters, packet queues, owner) and the model data plane of every session NOT addressed by the message are deep-equal; every data-plane call carries the addressed session's own UP SEID; "+
 			"re-association of X removes every session established under X and owned by X, none that is neither (ambiguous ones counted, not asserted); a SEID-0 answer removes at most the one session whose CP SEID and peer address match. "+
-			"non-trivial = a message was processed while >= 2 live sessions shared a rule id or a CP SEID; distinct by history",
+			"Second part (real Gtp5g driver, its periodic server, simulated kernel): 2 nodes, 2-5 sessions with 1-2 periodic URRs each (ids and measurement periods coincide), 1-3 messages (Remove URR, remove all, Update URR, Deletion, re-association) each followed by an injected tick of every period: every session neither addressed nor ended by the message reports exactly its own periodic URRs of that period. "+
+			"non-trivial = a message was processed while >= 2 live sessions shared a rule id or a CP SEID, or (second part) the addressed session lost its last URR of a period a bystander uses; distinct by history",
 		"ownership after takeover onto an existing node id is ambiguous between statement and mechanism: accepted either way, counted as ambiguous",
 		"CP SEIDs are unique per peer (a CP function does not reuse its own SEID)",
-		"model data plane (kernel semantics) instead of gtp5g")
+		"model data plane (kernel semantics) instead of gtp5g in the first part; ticks of the second part are injected into the periodic server (real tickers: C15)")
 	vcore.Main(m)
 }
 
@@ -78,10 +79,21 @@ func report(t vcore.Failer, c sessmodel.Case, r sessmodel.Result) {
 func TestC05(t *testing.T) {
 	files, explicit := vcore.ReplayFiles()
 	for _, f := range files {
-		var c sessmodel.Case
-		if err := vcore.LoadReplayCase(f, &c); err != nil {
+		var w struct {
+			sessmodel.Case
+			Perio *PCase `json:"perio"`
+		}
+		if err := vcore.LoadReplayCase(f, &w); err != nil {
 			t.Fatalf("replay %s: %v", f, err)
 		}
+		if w.Perio != nil {
+			v, s := runPerio(*w.Perio)
+			accountPerio(*w.Perio, s)
+			vcore.E.Class("replayed")
+			reportPerio(t, *w.Perio, v)
+			continue
+		}
+		c := w.Case
 		r := sessmodel.Run(c, or)
 		account(c, r)
 		vcore.E.Class("replayed")
@@ -90,6 +102,13 @@ func TestC05(t *testing.T) {
 	if explicit {
 		return
 	}
+	// the other sessions' periodic reporting (real driver and periodic server)
+	vcore.Check(t, vcore.N(150, 1500), func(rt *rapid.T) {
+		c := genPerio(rt)
+		v, s := runPerio(c)
+		accountPerio(c, s)
+		reportPerio(rt, c, v)
+	})
 	g := cfg()
 	vcore.Check(t, vcore.N(1200, 12000), func(rt *rapid.T) {
 		c := sessmodel.Case{Ops: sessmodel.Gen(rt, g), Refuse: sessmodel.GenRefuse(rt)}
